@@ -236,6 +236,76 @@ def configs_for(strict):
     return cfgs
 
 
+def probe_handle(col, err):
+    """hand err to col.handleError the way the library does; -> 'raised' / 'swallowed' / 'raw:<Class>'"""
+    import collada.common as cc
+    try:
+        try:
+            raise err
+        except cc.DaeError as ex:
+            col.handleError(ex)
+    except cc.DaeError as ex2:
+        return 'raised' if ex2 is err else 'raw:other'
+    except BaseException as ex3:  # noqa
+        return 'raw:' + type(ex3).__name__
+    return 'swallowed'
+
+
+def probe_lazy(col):
+    """read the data of every image again (the files do not exist): 'raised' / 'swallowed' / None"""
+    import collada.common as cc
+    out = None
+    for img in col.images:
+        try:
+            img.data = None
+            img.data
+            out = out or 'swallowed'
+        except cc.DaeBrokenRefError:
+            return 'raised'
+        except BaseException as e:  # noqa
+            return 'raw:' + type(e).__name__
+    return out
+
+
+def post_load_mask_clauses(col, K):
+    import collada.common as cc
+    problems = []
+    seen = []
+    for e in col.errors:
+        if type(e) not in seen:
+            seen.append(type(e))
+    seen = [c for c in seen if c.__module__ == cc.__name__][:4] or [cc.DaeBrokenRefError]
+    n0 = len(col.errors)
+    # still masked: the load was done with ignore=[DaeError]
+    for c in seen:
+        if probe_handle(col, c('probe')) != 'swallowed':
+            problems.append('with ignore=[DaeError] a %s handed to handleError after the load is not swallowed' % c.__name__)
+    if probe_lazy(col) not in (None, 'swallowed'):
+        problems.append('with ignore=[DaeError] reading the data of a missing image after the load raises')
+    col.ignoreErrors(None)
+    if list(col.maskedErrors):
+        problems.append('ignoreErrors(None) leaves %r in the mask' % (col.maskedErrors,))
+    for c in seen:
+        r = probe_handle(col, c('probe'))
+        if r != 'raised':
+            problems.append('after ignoreErrors(None) a %s (a class ignored during the load) is %s instead of re-raised'
+                            % (c.__name__, r))
+    r = probe_lazy(col)
+    if r not in (None, 'raised'):
+        problems.append('after ignoreErrors(None) reading the data of a missing image is %s instead of raising DaeBrokenRefError' % r)
+    col.ignoreErrors(cc.DaeIncompleteError)
+    r = probe_handle(col, cc.DaeBrokenRefError('probe'))
+    if r != 'raised':
+        problems.append('after clear + ignoreErrors(DaeIncompleteError) a DaeBrokenRefError is %s' % r)
+    col.ignoreErrors(cc.DaeBrokenRefError)
+    r = probe_lazy(col)
+    if r not in (None, 'swallowed'):
+        problems.append('after ignoreErrors(DaeBrokenRefError) reading the data of a missing image is %s' % r)
+    if len(col.errors) <= n0:
+        problems.append('errors handed to handleError after the load are not recorded')
+    return problems
+
+
 def run_doc_case(case, bases, base_cache):
     from harness.gen import faults as F
     text = bases[case['base']]
@@ -304,6 +374,12 @@ def run_doc_case(case, bases, base_cache):
             if co['esc_name'] != sesc or co['errs'] != strict['errs']:
                 fail('clear-restores', 'ignore=[None] (clear the mask) does not behave strictly: %s/%s instead of %s/%s'
                      % (co['esc_name'], co['err_names'], sesc, strict['err_names']))
+        # ---- clause: clearing the mask on the loaded object restores strictness, also for error
+        # classes that were ignored during the load, and for lazily reported errors (image data)
+        fcol = full.get('col')
+        if fcol is not None and not full['esc']:
+            for what in post_load_mask_clauses(fcol, K):
+                fail('clear-restores-after-load', what + ' (%s)' % label)
         # ---- clause: a dangling reference of the kinds the loader must resolve is a broken-reference error
         if len(case['faults']) == 1 and case['faults'][0]['kind'] == 'dangling' and label in DANGLING_IS_BROKENREF:
             if sesc != 'DaeBrokenRefError':
@@ -319,6 +395,9 @@ def run_doc_case(case, bases, base_cache):
         for attr, n, it in items:
             if (attr, n) in aff:
                 affected.append([LIBCODE[attr], it.get('id')])
+        if any(f['kind'] == 'badbyte' for f in case['faults']):
+            # an overwritten byte that still parses changes some text somewhere: no containment claim
+            affected = [[s_[0], s_[1]] for s_ in base['snapshot']]
         if ('scene', 0) in aff:
             for lc, i, h in base['snapshot']:
                 if lc == 11:
@@ -367,61 +446,61 @@ def run_doc_case(case, bases, base_cache):
 
 
 def run_mask_case(case):
-    """history of ignoreErrors calls, then one handleError probe per error class"""
+    """history of ignoreErrors calls interleaved with handleError probes (direct, and lazily through
+    CImage.data of a missing file) on ONE Collada object"""
     import collada
     import collada.common as cc
     K = classes()
     ops = case['ops']
-    first_via_ctor = case.get('ctor') and ops and ops[0][0] == 'add'
-    if first_via_ctor:
-        # an empty document cannot take ignore (only used with a filename): use a tiny document
+    rest = ops
+    if case.get('ctor') and ops and ops[0][0] == 'add':
         col = collada.Collada(io.BytesIO(case['doc'].encode()), ignore=[K[n] for n in ops[0][1]])
         rest = ops[1:]
+        steps = [['add', ops[0][1]]]
+    elif case.get('doc'):
+        col = collada.Collada(io.BytesIO(case['doc'].encode()))
+        steps = []
     else:
         col = collada.Collada()
-        rest = ops
+        steps = []
+    fails = []
+    mask = list(steps[0][1]) if steps else []
+
+    def check(n, outcome, how):
+        should_mask = any(m in K and m != 'None' and issubclass(K[n], K[m]) for m in mask)
+        if outcome.startswith('raw'):
+            fails.append({'signature': 'C08:mask:' + outcome, 'clause': 'mask',
+                          'what': '%s of a %s lets %s escape (history %s)' % (how, n, outcome, ops)})
+        elif (outcome == 'raised') == should_mask:
+            fails.append({'signature': 'C08:mask:%s' % ('masked-but-raised' if outcome == 'raised' else 'unmasked-but-swallowed'),
+                          'clause': 'mask',
+                          'what': 'history %s, %s of a %s: %s' % (ops, how, n, 'raised although the class or a base class is in the mask'
+                                                                   if outcome == 'raised' else
+                                                                   'swallowed although no class of the current mask matches (a cleared mask must be strict again)')})
     for op in rest:
         if op[0] == 'clear':
             col.ignoreErrors(None)
-        else:
+            mask = []
+            steps.append(['clear'])
+        elif op[0] == 'add':
             col.ignoreErrors(*[K[n] for n in op[1]])
-    probes = []
-    fails = []
-    expect_mask = []
-    for op in ops:
-        if op[0] == 'clear':
-            expect_mask = []
-        else:
-            expect_mask = expect_mask + list(op[1])
-    for n in case['probes']:
-        before = len(col.errors)
-        raised = False
-        err = K[n]('probe')
-        try:
-            try:
-                raise err
-            except cc.DaeError as ex:
-                col.handleError(ex)
-        except cc.DaeError as ex2:
-            raised = ex2 is err
-            if not raised:
-                fails.append({'signature': 'C08:mask:other-raised', 'clause': 'mask', 'what': 'handleError raised a different error'})
-        except BaseException as ex3:  # noqa
-            fails.append({'signature': 'C08:mask:raw:' + type(ex3).__name__, 'clause': 'mask',
-                          'what': 'handleError let a raw %s escape with mask history %s' % (type(ex3).__name__, ops)})
-            raised = True
-        probes.append([exc_code(err), raised])
-        recorded = len(col.errors) == before + 1 and col.errors[-1] is err
-        should_mask = any(m in K and isinstance(err, K[m]) for m in expect_mask)
-        if not recorded and not fails:
-            fails.append({'signature': 'C08:mask:not-recorded', 'clause': 'mask',
-                          'what': 'handleError did not record the error (mask history %s)' % ops})
-        if raised == should_mask and not fails:
-            fails.append({'signature': 'C08:mask:%s' % ('masked-but-raised' if raised else 'unmasked-but-swallowed'),
-                          'clause': 'mask',
-                          'what': 'mask history %s, error %s: %s' % (ops, n, 'raised although the class or a base class is in the mask'
-                                                                         if raised else 'swallowed although no listed class matches')})
-    return {'probes': probes, 'mask_len': len(col.maskedErrors), 'fails': fails[:2]}
+            mask = mask + list(op[1])
+            steps.append(['add', op[1]])
+        elif op[0] == 'probe':
+            before = len(col.errors)
+            err = K[op[1]]('probe')
+            r = probe_handle(col, err)
+            check(op[1], r, 'handleError')
+            if not (len(col.errors) == before + 1 and col.errors[-1] is err):
+                fails.append({'signature': 'C08:mask:not-recorded', 'clause': 'mask',
+                              'what': 'handleError did not record the error (history %s)' % ops})
+            steps.append(['probe', exc_code(err), r != 'swallowed'])
+        elif op[0] == 'lazy':
+            r = probe_lazy(col)
+            if r is not None:
+                check('DaeBrokenRefError', r, 'reading CImage.data of a missing file')
+                steps.append(['probe', 2, r != 'swallowed'])
+    return {'steps': steps, 'mask_len': len(col.maskedErrors), 'fails': fails[:2]}
 
 
 def main():
@@ -432,7 +511,7 @@ def main():
             try:
                 out.append(run_mask_case(c))
             except Exception as e:  # noqa
-                out.append({'probes': [], 'mask_len': 0,
+                out.append({'steps': [], 'mask_len': 0,
                             'fails': [{'signature': 'C08:mask:worker-exception:' + type(e).__name__, 'clause': 'mask',
                                        'what': 'driving ignoreErrors/handleError raised %r' % (e,)}]})
     else:
